@@ -276,6 +276,11 @@ class ExprBuilder:
                     return e[2][fields.index(name)]
             if e[0] == "agg" and e[1] == "tuple" and isinstance(name, int) and name < len(e[2]):
                 return e[2][name]
+            if e[0] == "bin" and e[1].endswith("WithOverflow"):
+                # checked arithmetic tuple: .0 is the (wrapping) result, .1 the overflow flag
+                if name == 0:
+                    return ("bin", e[1][:-len("WithOverflow")], e[2], e[3])
+                return ("ovf", e[1][:-len("WithOverflow")], e[2], e[3])
             return ("field", e, name)
         if "idx" in pe:
             return ("index", e, self.local(pe["idx"], loc, depth))
@@ -308,7 +313,8 @@ class ExprBuilder:
             for a in alts:
                 if a not in uniq:
                     uniq.append(a)
-            e = uniq[0] if len(uniq) == 1 else ("phi", tuple(uniq))
+            pid = (l, tuple(sorted((d[0], d[1]) if d[0] != "entry" else (-1, -1) for d in ds)))
+            e = uniq[0] if len(uniq) == 1 else ("phi", tuple(uniq), pid)
         self.memo[key] = e
         return e
 
@@ -358,6 +364,25 @@ class ExprBuilder:
             return ("ucall", fn["path"], args, (self.body.did, loc[0]), tuple(fn.get("args", ())))
         res = fn.get("res") or fn
         path = res["path"]
+        # peel the `&mut T` / `Box<T>` forwarding impls: `self.remaining()` inside a `&mut self`
+        # method resolves to `<&mut X as Buf>::remaining`, which (rule C1) is `X::remaining(**self)`
+        if res.get("local") and fn.get("trait") and res.get("impl_self") in ("&mut T", "alloc::boxed::Box<T>") \
+                and fn.get("self_ty") and args:
+            st = fn["self_ty"]
+            inner = st[5:] if st.startswith("&mut ") else (st[len("alloc::boxed::Box<"):-1] if st.startswith("alloc::boxed::Box<") else None)
+            if inner is not None:
+                a0 = args[0]
+                a0 = a0[1] if a0[0] == "ref" else ("deref", a0)
+                im = self.facts.find_impl_method(fn["trait"], inner, fn["name"])
+                if im is None:
+                    return ("ucall", fn["path"], (a0,) + args[1:], (self.body.did, loc[0]), (inner,))
+                cb = self.facts.by_did.get(im)
+                if cb is not None:
+                    if self.inline and self.inline_depth > 0:
+                        g = getter_expr(cb, self.facts, self.inline_depth - 1)
+                        if g is not None:
+                            return subst_params(g, (a0,) + args[1:])
+                    return ("call", cb.id, (a0,) + args[1:], cb.id, (inner,), fn["path"])
         if self.inline and res.get("local") and self.inline_depth > 0:
             cb = self.facts.by_did.get(res.get("did"))
             if cb is not None:
@@ -452,7 +477,27 @@ def has_effects(body):
     return e
 
 
+def canon(e):
+    """canonical form for structural comparison: integer casts erased, call metadata dropped,
+    loop-carried / multi-definition variables identified by (local, reaching-definition set)"""
+    if not isinstance(e, tuple) or not e:
+        return e
+    h = e[0]
+    if h == "cast" and e[1] == "IntToInt":
+        return canon(e[2])
+    if h == "call":
+        return ("call", e[1], tuple(canon(a) for a in e[2]))
+    if h == "ucall":
+        return ("ucall", e[1], tuple(canon(a) for a in e[2]), e[3])
+    if h == "phi":
+        if len(e) > 2:
+            return ("phi", e[2])
+        return ("phi", tuple(canon(a) for a in e[1]))
+    return tuple(canon(x) if isinstance(x, tuple) else x for x in e)
+
+
 PURE_STD = (
+    "core::cmp::min", "core::cmp::max", "core::cmp::Ord::min", "core::cmp::Ord::max",
     "core::ptr::NonNull::<T>::as_ptr", "core::slice::<impl [T]>::len", "core::slice::<impl [T]>::as_ptr",
     "core::ptr::mut_ptr::<impl *mut T>::cast", "core::ptr::const_ptr::<impl *const T>::cast",
     "core::slice::<impl [T]>::is_empty", "alloc::vec::Vec::<T, A>::len", "alloc::vec::Vec::<T, A>::capacity",
@@ -473,7 +518,14 @@ def getter_expr(body, facts, depth):
         for _, t in body.terms():
             if t["k"] == "call":
                 fn = callee(t)
-                if fn is None or ("res" in fn and fn["res"] is None):
+                if fn is None:
+                    ok = False
+                    break
+                if "res" in fn and fn["res"] is None:
+                    # user-trait call inside a getter (Take::remaining = min(inner.remaining(), limit)):
+                    # kept as a ucall node; only bound reasoning (x <= min(u, l) => x <= l) may rely on it
+                    if fn["name"] in ("remaining", "remaining_mut", "len"):
+                        continue
                     ok = False
                     break
                 r = fn.get("res") or fn
@@ -490,7 +542,7 @@ def getter_expr(body, facts, depth):
                 break
         if ok:
             e = return_expr(body, facts, inline=True, depth=depth)
-            if not contains(e, ("unknown", "phi", "ucall", "icall")):
+            if not contains(e, ("unknown", "phi", "icall")):
                 res = e
     body._cache[key] = res
     return res
